@@ -348,6 +348,9 @@ def _import_rule(rep, fn, args, src, dst, keep, why):
 
 def run(tree, rep, tier):
     from .. import round9 as _r9
+    _r9.no_hashing_of_peer_values(tree, rep, "C11.R12", (("src/wormhole/_hints.py", None, "parse_tcp_v1_hint"), ("src/wormhole/_hints.py", None, "parse_hint"),
+                                     ("src/wormhole/transit.py", "Common", "add_connection_hints"), ("src/wormhole/_dilation/manager.py", "Manager", "use_hints"),
+                                     ("src/wormhole/_dilation/connector.py", "Connector", "_use_hints")))
     _r9.hints_forwarded_statelessly(tree, rep, "C11.R11")
     # convergence needs the one connection attempt the network lets through to survive the prologue exchange under ANY segmentation of
     # the byte stream (the prologue ends in two newlines: a cut between them is legal) - the rule instances are C12.R4's for _get_expected
@@ -428,3 +431,5 @@ MUTANTS.append(Mutant("oneshot-fires-synchronously", "src/wormhole/observer.py",
                       "    def when_fired(self):\n        d = Deferred()\n        if self._result is not NoResult and not self._observers:\n            d.callback(self._result)\n            return d\n", "C11.R6"))
 
 MUTANTS.append(Mutant("manager-remembers-hints", MGR, "        hint_objs = list(hint_objs)\n        self._connector.got_hints(hint_objs)\n", "        hint_objs = [h for h in hint_objs if h not in self._seen_hints]\n        self._seen_hints.extend(hint_objs)\n        self._connector.got_hints(hint_objs)\n", "C11.R11", "seed C11-19"))
+
+MUTANTS.append(Mutant("hint-type-in-set", "src/wormhole/_hints.py", "    if hint_type not in [\"direct-tcp-v1\", \"tor-tcp-v1\"]:", "    if hint_type not in {\"direct-tcp-v1\", \"tor-tcp-v1\"}:", "C11.R12", "seed C11-21"))
